@@ -7,7 +7,7 @@ import traceback
 
 from .model import Repo, AnalysisError
 from .report import Ctx, finish
-from . import selftest
+from . import selftest, mutate
 
 REPO_ROOT = os.environ.get("VERIF_REPO", "/repo")
 
@@ -56,6 +56,12 @@ def main(argv):
     extra = {}
     if tier == "thorough":
         extra["selftest"] = selftest.run(mod, repo, pid, ctx)
+        scope = getattr(mod, "MUTATION_SCOPE", [])
+        if scope:
+            sw = mutate.sweep(mod, repo, pid, ctx, scope)
+            extra["mutation_sweep"] = sw
+            if sw.get("crashed"):
+                ctx.error(f"mutation sweep: the checker crashed on {sw['crashed']} mechanically mutated variant(s) of the anchored code")
     return finish(ctx, mod.META, extra)
 
 
